@@ -77,28 +77,33 @@ Print Assumptions C13_current_code_partial.
    callees extracted as CacheTouch / Mutate / ignored reach no write at all; the PageWrite and HeaderWrite
    callees reach exactly their own write and not the log; LogAppend reaches only the log writes of
    wal.flush; inlined callees reach only those known sites; every write site lies in a function of the
-   matching class. *)
+   matching class; and only inlined callees can reach an operation on the reader/writer lock (a callee
+   whose body is not read by the translator neither locks nor unlocks). Calls through a value obtained
+   by a type assertion on the relation manager (rc := rm.(rowChecker)) are calls on the relation manager. *)
 Theorem C13_classification_sound :
-  io_classification_ok io_sites reaches_data_write reaches_log_write classified = true.
+  io_classification_ok io_sites reaches_data_write reaches_log_write reaches_lock_op classified = true.
 Proof. vm_compute. reflexivity. Qed.
 Print Assumptions C13_classification_sound.
 
 (* read declaratively: what the statement bodies (Insert, Update, MarkDeleted, Fetch, ...) can reach *)
 Theorem C13_statement_bodies_reach_no_write : forall f c,
   In (f, c) classified -> mem c silent_classes = true ->
-  lookup f reaches_data_write = Some [] /\ lookup f reaches_log_write = Some [].
-Proof. intros f c. exact (silent_reaches_nothing _ _ _ _ f c C13_classification_sound). Qed.
+  lookup f reaches_data_write = Some [] /\ lookup f reaches_log_write = Some [] /\ lookup f reaches_lock_op = Some [].
+Proof. intros f c. exact (silent_reaches_nothing _ _ _ _ _ f c C13_classification_sound). Qed.
 Print Assumptions C13_statement_bodies_reach_no_write.
 
 Theorem C13_every_write_site_is_classified : forall f m t,
   In (f, m, t) io_sites -> mem m read_only_methods = false ->
-  exists c, lookup f classified = Some c /\ (c = "PageWrite" \/ c = "HeaderWrite" \/ c = "LogAppend")%string.
-Proof. intros f m t. exact (every_write_site_is_classified _ _ _ _ f m t C13_classification_sound). Qed.
+  exists c, lookup f classified = Some c /\
+            (c = "PageWrite" \/ c = "HeaderWrite" \/ c = "LogAppend" \/ (c = "inlined" /\ t = "lock"))%string.
+Proof. intros f m t. exact (every_write_site_is_classified _ _ _ _ _ f m t C13_classification_sound). Qed.
 Print Assumptions C13_every_write_site_is_classified.
 
 Example C13_classification_nonvacuous :
   lookup "RelationService.Insert"%string classified = Some "Mutate"%string /\
   lookup "RelationService.Fetch"%string classified = Some "CacheTouch"%string /\
+  lookup "RelationService.CheckInsert"%string classified = Some "CacheTouch"%string /\
+  lookup "RelationService.StartTxn"%string reaches_lock_op = Some ["fileStore.lockShared/RLock"]%string /\
   lookup "fileStore.flushPages"%string reaches_data_write = Some [header_write_site; page_write_site] /\
   existsb (fun s => match s with (f, m, t) => String.eqb f "fileStore.update" && String.eqb m "WriteAt" && String.eqb t "data" end) io_sites = true.
 Proof. vm_compute. repeat split. Qed.
@@ -108,10 +113,56 @@ Proof. vm_compute. repeat split. Qed.
    the flusher is blocked until the statement has unlocked, then flushes *)
 Definition sch_n (t : tid) (c : bool) (n : nat) : schedule := repeat (t, c) n.
 
+(* the shape EvaluateInsert has today, written out (the generated proto_insert changes with every
+   harmless rewrite of the function; this example is about the theorem's hypotheses, not about the
+   source): validate every row, then store every row, then append the log, unlock on every path *)
+Definition ex_insert : prog :=
+  PSeq (PAct LockShared)
+       (PBranch (PSeq (PLoop (PAct CacheTouch))
+                      (PBranch (PSeq (PLoop (PAct Mutate))
+                                     (PBranch (PSeq (PAct LogAppend) (PAct UnlockShared)) (PSeq (PAct Mutate) (PAct UnlockShared))))
+                               (PSeq (PAct CacheTouch) (PAct UnlockShared))))
+                (PSeq (PLoop (PAct Mutate))
+                      (PBranch (PSeq (PAct LogAppend) (PAct UnlockShared)) (PSeq (PAct Mutate) (PAct UnlockShared))))).
+
+Example C13_ex_insert_accepted : well_bracketed ex_insert = true.
+Proof. vm_compute. reflexivity. Qed.
+
+(* likewise the ticker goroutine and flushPages as they are today *)
+Definition ex_flush : prog :=
+  PSeq (PAct LockExclusive)
+       (PSeq (PLoop (PBranch PSkip (PAct PageWrite)))
+             (PBranch (PSeq (PAct HeaderWrite) (PAct UnlockExclusive)) (PSeq (PAct PageWrite) (PAct UnlockExclusive)))).
+Definition ex_ticker : prog := PLoop ex_flush.
+Example C13_ex_ticker_accepted : flusher_ok ex_ticker = true /\ flusher_ok ex_flush = true.
+Proof. vm_compute. split; reflexivity. Qed.
+
+(* the programs extracted from today's source are not degenerate: INSERT / UPDATE / DELETE can reach
+   their log append, CREATE TABLE and the flusher their page and header writes *)
+Fixpoint mentions (a : action) (p : prog) : bool :=
+  match p with
+  | PAct b => match a, b with
+              | LogAppend, LogAppend | PageWrite, PageWrite | HeaderWrite, HeaderWrite
+              | Mutate, Mutate | CacheTouch, CacheTouch | LockShared, LockShared | UnlockShared, UnlockShared
+              | LockExclusive, LockExclusive | UnlockExclusive, UnlockExclusive => true
+              | _, _ => false
+              end
+  | PSeq x y | PBranch x y => mentions a x || mentions a y
+  | PLoop x => mentions a x
+  | PSkip => false
+  end.
+
+Example C13_current_protocols_nondegenerate :
+  mentions LogAppend proto_insert && mentions LogAppend proto_update && mentions LogAppend proto_delete &&
+  mentions Mutate proto_insert && mentions CacheTouch proto_select &&
+  mentions PageWrite proto_createtable && mentions HeaderWrite proto_createtable &&
+  mentions PageWrite proto_ticker && mentions HeaderWrite proto_ticker && mentions LockExclusive proto_ticker = true.
+Proof. vm_compute. reflexivity. Qed.
+
 Example C13_nonvacuous_interleaving :
-  let tr := run [proto_insert] proto_ticker
-                (sch_n Session true 6 ++ sch_n Flusher true 4 ++ sch_n Session false 1 ++
-                 sch_n Session true 4 ++
+  let tr := run [ex_insert] ex_ticker
+                (sch_n Session true 3 ++ sch_n Session false 1 ++ sch_n Session true 3 ++ sch_n Flusher true 4 ++
+                 sch_n Session false 1 ++ sch_n Session true 4 ++
                  map (fun c => (Flusher, c)) [true; true; true; false; true; false; true; true; true; true]) in
   existsb (fun e => match e with Ev Session LogAppend => true | _ => false end) tr = true /\
   existsb (fun e => match e with Ev Flusher PageWrite => true | _ => false end) tr = true /\
@@ -126,7 +177,7 @@ Definition bad_delete : prog :=
 Example C13_rejects_unbracketed : well_bracketed bad_delete = false.
 Proof. vm_compute. reflexivity. Qed.
 Example C13_unbracketed_is_unsafe :
-  safe (run [bad_delete] proto_ticker (sch_n Session true 4)) = false.
+  safe (run [bad_delete] ex_ticker (sch_n Session true 4)) = false.
 Proof. vm_compute. reflexivity. Qed.
 
 (* (ii) an INSERT that unlocks before its log append: the flusher writes pages in between *)
@@ -135,7 +186,7 @@ Definition bad_insert : prog :=
 Example C13_rejects_early_unlock : well_bracketed bad_insert = false.
 Proof. vm_compute. reflexivity. Qed.
 Example C13_early_unlock_is_unsafe :
-  let tr := run [bad_insert] proto_ticker
+  let tr := run [bad_insert] ex_ticker
                 (sch_n Session true 7 ++
                  map (fun c => (Flusher, c)) [true; true; true; true; false; true; true; true; true] ++
                  sch_n Session true 1) in
@@ -158,5 +209,5 @@ Qed.
 
 (* (iii) an exclusive lock requested inside the shared section (self-deadlock) is rejected *)
 Example C13_rejects_upgrade :
-  well_bracketed (PSeq (PAct LockShared) (PSeq proto_flush (PAct UnlockShared))) = false.
+  well_bracketed (PSeq (PAct LockShared) (PSeq ex_flush (PAct UnlockShared))) = false.
 Proof. vm_compute. reflexivity. Qed.
